@@ -22,6 +22,9 @@ DOCUMENTED = (
 )
 
 
+DEBUG_TB = bool(__import__("os").environ.get("VERIF_TB"))
+
+
 class Outcome:
     """Result of one API call: a value or the exception that reached the
     caller."""
@@ -52,7 +55,13 @@ def call(fn: typing.Callable[..., typing.Any], *a: typing.Any, **kw: typing.Any)
     try:
         return Outcome(value=fn(*a, **kw))
     except Exception as e:
-        return Outcome(exc=e)
+        o = Outcome(exc=e)
+        if not isinstance(e, DOCUMENTED) and DEBUG_TB:
+            import traceback
+
+            o.tb = traceback.format_exc()
+            print(o.tb, file=sys.stderr)
+        return o
     except vrt.Hang as e:
         return Outcome(exc=e)
     except vrt.Cancelled as e:
